@@ -145,4 +145,58 @@ macro_rules! c03_from_cofactors {
     };
 }
 
+/// Large tables (n >= 9): the same obligations with CONCRETE indices, one harness per index (pair) -- the
+/// symbolic-index query at n = 11, 12 takes 30-50 min or runs out of memory, a concrete index takes seconds.
+/// $op: 0 flip(i), 1 cofactors(i) + recomposition, 2 from_cofactors(c0, c1, i), 3 swap(i, j) (+ swap_adjacent if j == i + 1)
+macro_rules! c03_fixed {
+    ($name:ident, $fam:ident, $op:literal, $i:literal, $j:literal, $u:literal) => {
+        #[kani::proof]
+        #[kani::unwind($u)]
+        pub fn $name() {
+            use crate::verif_common::$fam as F;
+            let bf = any_blocks::<{ F::T }>(F::N);
+            let f = F::mk(&bf);
+            let i: usize = $i;
+            let j: usize = $j;
+            let m = any_m(F::N);
+            if $op == 0 {
+                let g = f.flip(i);
+                assert!(wf(F::N, g.blocks()));
+                assert!(bit(g.blocks(), m) == bit(&bf, m ^ (1usize << i)));
+                let mut h = f.clone();
+                h.flip_inplace(i);
+                assert!(eq_blocks(h.blocks(), g.blocks()));
+            } else if $op == 1 {
+                let (c0, c1) = f.cofactors(i);
+                assert!(bit(c0.blocks(), m) == bit(&bf, m & !(1usize << i)));
+                assert!(bit(c1.blocks(), m) == bit(&bf, m | (1usize << i)));
+                let r = <F::L>::from_cofactors(&c0, &c1, i);
+                assert!(eq_blocks(r.blocks(), &bf));
+            } else if $op == 2 {
+                let b1 = any_blocks::<{ F::T }>(F::N);
+                let c1 = F::mk(&b1);
+                let r = <F::L>::from_cofactors(&f, &c1, i);
+                let exp = if (m >> i) & 1 == 1 { bit(&b1, m) } else { bit(&bf, m) };
+                assert!(bit(r.blocks(), m) == exp);
+            } else {
+                let g = f.swap(i, j);
+                assert!(wf(F::N, g.blocks()));
+                assert!(bit(g.blocks(), m) == bit(&bf, swap_bits(m, i, j)));
+                let g2 = f.swap(j, i);
+                assert!(eq_blocks(g2.blocks(), g.blocks()));
+                let mut h = f.clone();
+                h.swap_inplace(i, j);
+                assert!(eq_blocks(h.blocks(), g.blocks()));
+                if j == i + 1 {
+                    let mut f2 = f.clone();
+                    let a = f2.swap_adjacent(i);
+                    assert!(eq_blocks(a.blocks(), g.blocks()));
+                }
+            }
+            assert!(eq_blocks(f.blocks(), &bf));
+            kani::cover!(true, "reached");
+        }
+    };
+}
+
 // ---- instantiations (generated by /verif/lib/registry.py) ----
